@@ -1,12 +1,66 @@
-(* Properties_C07.v — C07: worker state in a checkpoint is exactly what the worker reported.
-   Model: IncrModel.v (incremental_state.py).  Statements only. *)
-From PD Require Import Base IncrModel.
+(* Properties_C07.v — C07: worker dataset state in a checkpoint is exactly what the worker reported.
+   Model: IncrModel.v (incremental_state.py).  Statements only; proofs in IncrProofs.v.
+   Reading: [flatmap]s are Python dicts keyed by path tuples (association lists, insertion order);
+   [feq] is equality as finite maps; [lookup u p] is the leaf found in tree u at path p, so
+   "forall p, lookup u p = lookup v p" says u and v are equal as nested Python dicts (==, which
+   ignores insertion order) for well-formed trees (no duplicate keys — always true of dicts). *)
+From PD Require Import Base IncrModel IncrProofs.
 
 (* the worker's retained base after generating a delta is the flattened reported state *)
 Theorem C07_base_is_reported :
   forall base new_state, snd (gen_delta base new_state) = flatten new_state [].
 Proof. reflexivity. Qed.
 Print Assumptions C07_base_is_reported.
+
+(* one delta is lossless: main side m (equal as a map to the worker's base) after applying the
+   delta equals the flattened new state at every path — whatever changed: keys added, removed,
+   leaf <-> dict, {} leaves *)
+Theorem C07_delta_exact :
+  forall (m base : flatmap) (new_state : value),
+    feq m base -> knodup m -> knodup base ->
+    feq (apply_delta m (fst (gen_delta base new_state))) (flatten new_state [])
+    /\ knodup (apply_delta m (fst (gen_delta base new_state))).
+Proof. exact delta_exact. Qed.
+Print Assumptions C07_delta_exact.
+
+(* any history of reported states: the main side ends up with the last one *)
+Theorem C07_history_exact :
+  forall states m base last, feq m base -> knodup m -> knodup base ->
+    (forall s, In s states -> wf s = true) -> wf last = true ->
+    feq (fst (run_history m base (states ++ [last]))) (flatten last []).
+Proof. exact history_exact. Qed.
+Print Assumptions C07_history_exact.
+
+(* flattening loses nothing: the flat map has exactly the tree's leaves *)
+Theorem C07_flatten_lookup :
+  forall v, wf v = true -> forall p, aget path_eqb (flatten v []) p = lookup v p.
+Proof. exact flatten_lookup. Qed.
+Print Assumptions C07_flatten_lookup.
+
+(* rebuilding the checkpoint tree from ANY flat map that equals the flattened reported state as a
+   map (its order may differ: it is the insertion order accumulated over the history) succeeds
+   and gives a tree with exactly the reported leaf at every path *)
+Theorem C07_get_state_lookup :
+  forall (f : flatmap) (v : value), wf v = true -> feq f (flatten v []) -> knodup f ->
+    exists u, get_state f = Some u /\ (forall p, lookup u p = lookup v p).
+Proof. exact get_state_lookup. Qed.
+Print Assumptions C07_get_state_lookup.
+
+(* THE PROPERTY on the model: after any history of snapshot-flagged reports, the state stored in
+   the checkpoint is (==) the state the worker reported last *)
+Theorem C07_checkpoint_exact :
+  forall states m base last, feq m base -> knodup m -> knodup base ->
+    (forall s, In s states -> wf s = true) -> wf last = true ->
+    exists u, get_state (fst (run_history m base (states ++ [last]))) = Some u /\
+              forall p, lookup u p = lookup last p.
+Proof. exact checkpoint_exact. Qed.
+Print Assumptions C07_checkpoint_exact.
+
+(* direct round trip, syntactically (same key order) *)
+Theorem C07_unflatten_flatten :
+  forall v, wf v = true -> get_state (flatten v []) = Some v.
+Proof. exact unflatten_flatten. Qed.
+Print Assumptions C07_unflatten_flatten.
 
 (* non-vacuity / regression examples evaluated in the kernel *)
 Example C07_roundtrip_example :
@@ -21,3 +75,10 @@ Example C07_delta_example :
   d = [([2; 3], Tomb); ([2], DVal (VLeaf 7)); ([4], DVal (VDict []))] /\
   get_state (apply_delta (flatten old []) d) = Some (VDict [(1, VLeaf 5); (2, VLeaf 7); (4, VDict [])]).
 Proof. vm_compute. split; reflexivity. Qed.
+
+(* the hypotheses of C07_checkpoint_exact are met at worker start: main and worker hold the same flat map *)
+Example C07_hyps_satisfiable :
+  let v := VDict [(1, VLeaf 5); (2, VDict [(3, VLeaf 6)])] in
+  feq (is_init v) (is_init v) /\ knodup (is_init v) /\ wf v = true.
+Proof. cbv zeta. split; [intro; reflexivity|]. split; [|reflexivity].
+  apply flatten_knodup. reflexivity. Qed.
